@@ -548,7 +548,7 @@ func TestVerifC03(t *testing.T) {
 	// (ii) generated bundles, all three CRC mixes
 	nBundles, maxPayload, perStart := 27, 60, 2
 	if thorough {
-		nBundles, maxPayload, perStart = 240, 300, 4
+		nBundles, maxPayload, perStart = 120, 160, 3
 	}
 	total := 0
 	for i := 0; i < nBundles; i++ {
@@ -567,7 +567,7 @@ func TestVerifC03(t *testing.T) {
 	}
 	if thorough {
 		// large bundles: sampled positions
-		for i := 0; i < 12; i++ {
+		for i := 0; i < 6; i++ {
 			vb, err := verifC03Gen(r, i%3, 4096)
 			if err != nil {
 				fmt.Fprintf(w, "# generator error: %v\n", err)
@@ -575,7 +575,7 @@ func TestVerifC03(t *testing.T) {
 			}
 			fmt.Fprintf(w, "# bundle large-%d %s\n", i, vb.desc)
 			fmt.Fprintf(w, "orig %s %s\n", verifC03Hex(vb.enc), verifC03Parse(vb.enc))
-			total += verifC03Mutations(w, r, &vb, 1, 97)
+			total += verifC03Mutations(w, r, &vb, 1, 197)
 		}
 	}
 	fmt.Fprintf(w, "# mutations %d\n", total)
